@@ -9,14 +9,17 @@ Import ListNotations.
    types, [calls_ok]), every depth of observation —
    under every schedule the completed calls returned their solo results, and while a call
    is outstanding some thread can take a state-changing step (no deadlock);
-   every fair schedule of fuel_bound rounds completes all calls with their solo results *)
+   every weakly fair schedule (rounds, each scheduling every thread at least once; this is
+   the ONLY assumption on the scheduler, and none is made on the order in which sc.mu is
+   granted: a released lock goes to whichever blocked or arriving thread runs next) of
+   fuel_bound rounds completes all calls with their solo results *)
 Definition C10_logic_statement (d : disc) : Prop :=
   forall k g calls, calls_ok calls ->
     (forall sched t, exists j, nth t (results (run d k g calls sched)) [] =
                                map (result_solo k g) (firstn j (nth t calls []))) /\
     (forall sched, all_done (run d k g calls sched) = false ->
        exists t, t < length calls /\ gstep d k g t (run d k g calls sched) <> run d k g calls sched) /\
-    (forall rounds, Forall (covers (length calls)) rounds -> fuel_bound g calls <= length rounds ->
+    (forall rounds, weakly_fair (length calls) rounds -> fuel_bound g calls <= length rounds ->
        all_done (run d k g calls (concat rounds)) = true /\
        results (run d k g calls (concat rounds)) = map (map (result_solo k g)) calls).
 
